@@ -4,7 +4,7 @@
    socket accepted, accept schedule k_sched, ghost trace k_trace of every (gather buffer, eof) handed to
    format_output); sent c = bytes on the wire ++ pending_output_; stream f t = the ideal concatenation of
    format_output over a trace; tr c = bytes the device asked the connection to write. *)
-From CppcmsV Require Import Base.Tac Base.CSem C03.Defs C03.Proofs C03.Proofs2 C03.Proofs3 C03.Proofs4 C03.Proofs5 C03.Proofs6 C03.Proofs7 C03.Proofs8 C03.Proofs9 C03.Proofs10 C03.Proofs11 C03.Proofs12 C03.Proofs13 C03.GzipDefs C03.ProofsGzip C03.ProofsHdr C03.Proofs14 C03.ProofsCb C03.Link gen.Gen_C03 gen.Gen_C03_fcgi gen.Gen_C03_sock gen.Gen_C03_copybuf.
+From CppcmsV Require Import Base.Tac Base.CSem C03.Defs C03.Proofs C03.Proofs2 C03.Proofs3 C03.Proofs4 C03.Proofs5 C03.Proofs6 C03.Proofs7 C03.Proofs8 C03.Proofs9 C03.Proofs10 C03.Proofs11 C03.Proofs12 C03.Proofs13 C03.GzipDefs C03.ProofsGzip C03.ProofsHdr C03.Proofs14 C03.ProofsCb C03.ProofsCb2 C03.Link gen.Gen_C03 gen.Gen_C03_fcgi gen.Gen_C03_sock gen.Gen_C03_copybuf.
 Local Open Scope N_scope.
 
 (* ------------------------------------------------------------------------------------------------ 1. pending_conservation
@@ -273,6 +273,21 @@ Print Assumptions copy_buf_window_invariant.
 Theorem copy_buf_getstr_exact : forall ops, cb_page ops = concat (map obytes ops).
 Proof. exact cb_page_exact. Qed.
 Print Assumptions copy_buf_getstr_exact.
+(* (3) the record cpy that step / run_request use to decide when copy_buf hands pbase..pptr to the device is a faithful
+   abstraction of the exact buffer: Sim W y b = same content W, c_size = buffer_.size(), c_room = epptr - pptr, c_unsent =
+   buffer_[pbase .. pptr).  Sim holds initially (Sim0) and is preserved by overflow / sputc / xsputn, and every overflow
+   forwards the same bytes -- so the window arithmetic behind the end-to-end theorems is the one tied to the source. *)
+Theorem copy_buf_forwarding_agrees : forall W y b d c ch, Sim W y b ->
+  Sim (W ++ match ch with Some x => [x] | None => [] end) (fst (fst (cpy_overflow y d c ch))) (fst (cb_overflow b ch)) /\
+  snd (cb_overflow b ch) = c_unsent y.
+Proof. exact Sim_overflow. Qed.
+Print Assumptions copy_buf_forwarding_agrees.
+Theorem copy_buf_abstraction_exact : forall fuel W y b d c s x, (length s < fuel)%nat -> Sim W y b ->
+  Sim (W ++ s) (fst (fst (cpy_xsputn fuel y d c s))) (fst (cb_xsputn fuel b s)) /\
+  Sim (W ++ [x]) (fst (fst (cpy_sputc y d c x))) (fst (cb_sputc b x)) /\
+  Sim [] (mkCpy [] [] 0 0) cb0.
+Proof. exact Sim_all. Qed.
+Print Assumptions copy_buf_abstraction_exact.
 (* non-vacuity: 700 bytes in three writes, a put and a flush: the vector doubles 128 -> 256 -> 512 -> 1024, the window ends at
    1024, the write pointer is at 701, getstr returns the 701 bytes; and the three growth expressions at a large size *)
 Example copy_buf_nonvacuous :
